@@ -4,6 +4,7 @@ package iam
 
 import (
 	"context"
+	"encoding/json"
 	"fmt"
 	"net/http"
 	"sort"
@@ -71,6 +72,20 @@ func (s *c02State) planAndRender(leg c02Leg, nonce string, defects []c02Defect, 
 					}
 					s.x.Classf("nothing_presented:variant=%d,sub_req=%s,%s", d.Arg%8, sr, c.Flow)
 				}
+				if d.Name == "forged_map_outside" {
+					for _, e := range r.Map {
+						if o := e.Outside; o != nil {
+							id := "same-id"
+							switch {
+							case o.Cred.NoID:
+								id = "no-id"
+							case o.Cred.Seq != r.VPs[e.VP].Creds[e.Cred].Seq:
+								id = "other-id"
+							}
+							s.x.Classf("forged_map_outside:%s,copy=%s,%s,member=%s,array=%v,vps=%d", id, o.Cred.Format, r.VPs[e.VP].Format, o.Name, o.Arr, len(r.VPs))
+						}
+					}
+				}
 				if d.Name == "aud_near_miss" {
 					s.x.Classf("aud_near_miss:variant=%d,plain-string=%v,%s,%s", d.Arg%13, (d.Arg/12)%2 == 1, c.VPFmt, c.Flow)
 				}
@@ -137,7 +152,7 @@ var c02NoExpectation = map[string]bool{"aud_equivalent": true, "aud_array_contai
 
 // c02NeedsRequiredDescriptors: defects that are defects only because the definition requires a credential for the
 // descriptor concerned. Against a definition whose requirements have no lower bound (lax) they carry no expectation.
-var c02NeedsRequiredDescriptors = map[string]bool{"nothing_presented": true, "unfulfilled": true, "forged_map": true}
+var c02NeedsRequiredDescriptors = map[string]bool{"nothing_presented": true, "unfulfilled": true, "forged_map": true, "forged_map_outside": true}
 
 func c02LooseClaims(defects []string) bool {
 	for _, d := range defects {
@@ -225,7 +240,75 @@ func asOAuth(err error, target *oauth.OAuth2Error) bool {
 	return false
 }
 
-func (s *c02State) mainS2S() func() c02TokenResult {
+// c02Resend sends the main token request again. variant 0 = the identical request; other variants change what is NOT bound to
+// the presentation(s) (see s2sReplay). It returns the result and the name of the variant that was sent.
+type c02Resend func(variant int) (c02TokenResult, string)
+
+func c02Identical(send func() c02TokenResult) c02Resend {
+	return func(int) (c02TokenResult, string) { return send(), "identical" }
+}
+
+// s2sReplay: the presentations of an earlier vp_token-bearer request once more. Everything that is a plain request
+// parameter - client_id (unauthenticated in this grant), the DPoP proof, the spelling of the submission document - is the
+// sender's choice and may differ between first use and replay; the presentations (nonces) are the same.
+func (s *c02State) s2sReplay(body HandleTokenRequestFormdataRequestBody, r *c02Request, rd c02Rendered) c02Resend {
+	return func(variant int) (c02TokenResult, string) {
+		b, dpop, name := body, s.c.DPoP, "identical"
+		otherClient := func(v string) {
+			if b.ClientId != nil {
+				b.ClientId = c02Ptr(v)
+			}
+		}
+		s.replayN++
+		switch variant % 8 {
+		case 2:
+			name = "other-client_id"
+			otherClient(c02ClientIDs[(s.c.ClientID+1+s.replayN%(len(c02ClientIDs)-1))%len(c02ClientIDs)])
+		case 3:
+			name = "fresh-client_id"
+			otherClient(fmt.Sprintf("https://attacker.example/oauth2/mallory-%d", s.replayN))
+		case 4:
+			name = "dpop-toggled"
+			dpop = !dpop
+		case 5:
+			name = "other-client_id+dpop-toggled"
+			otherClient(c02ClientIDs[(s.c.ClientID+1+s.replayN%(len(c02ClientIDs)-1))%len(c02ClientIDs)])
+			dpop = !dpop
+		case 6:
+			name = "submission-respelled"
+			if r.Submission == nil && b.PresentationSubmission != nil && rd.SubJSON != nil {
+				m := map[string]any{}
+				for k, v := range rd.SubJSON {
+					m[k] = v
+				}
+				m["id"] = fmt.Sprintf("submission-again-%d", s.replayN)
+				sb, _ := json.MarshalIndent(m, "", "  ")
+				b.PresentationSubmission = c02Ptr(string(sb))
+			}
+		case 7:
+			name = "client_id-extended"
+			if b.ClientId != nil {
+				otherClient(*b.ClientId + "/")
+			}
+		}
+		res := s.callToken(b, dpop)
+		if res.Token != nil {
+			// (reported by the caller where that is a violation) tracked, so that the model knows every stored token
+			cid, scope := "", ""
+			if b.ClientId != nil {
+				cid = *b.ClientId
+			}
+			if b.Scope != nil {
+				scope = *b.Scope
+			}
+			s.record(res, cid, scope, []*c02Request{r}, []c02Rendered{rd}).Tainted = true
+			s.mainIssued = true // from now on these presentations have yielded a token
+		}
+		return res, name
+	}
+}
+
+func (s *c02State) mainS2S() c02Resend {
 	c := s.c
 	legs := s.legs()
 	leg := legs[c.Leg%len(legs)]
@@ -239,7 +322,11 @@ func (s *c02State) mainS2S() func() c02TokenResult {
 	for _, d := range c.Defects {
 		if d.Name == "nonce_reused" {
 			// the nonce is really used first, by an accepted request (same scope, fresh presentation, same nonce)
-			pr, prd, _ := s.planAndRender(leg, nonce, nil, s.scope().Name, c02ClientIDs[c.ClientID])
+			// client_id is a plain parameter of this grant (nothing binds it to the presentation): whoever used the
+			// nonce first, under whatever client_id, it has been seen
+			priorClient := c02ClientIDs[(c.ClientID+d.Arg)%len(c02ClientIDs)]
+			s.x.Classf("nonce_reused:first-use-by-same-client_id=%v", priorClient == c02ClientIDs[c.ClientID])
+			pr, prd, _ := s.planAndRender(leg, nonce, nil, s.scope().Name, priorClient)
 			var pdef []string
 			if len(legs) > 1 {
 				pdef = []string{"partial_definitions"}
@@ -247,7 +334,7 @@ func (s *c02State) mainS2S() func() c02TokenResult {
 			pres := s.callToken(s.s2sBody(pr, prd), false)
 			s.judge("prior", pres, pdef)
 			if pres.Token != nil {
-				s.record(pres, c02ClientIDs[c.ClientID], s.scope().Name, []*c02Request{pr}, []c02Rendered{prd}).Tainted = len(pdef) > 0
+				s.record(pres, priorClient, s.scope().Name, []*c02Request{pr}, []c02Rendered{prd}).Tainted = len(pdef) > 0
 				defects = append(defects, "nonce_reused")
 			} else {
 				// the refused request may or may not have spent the nonce: the main request carries no expectation from it
@@ -272,8 +359,7 @@ func (s *c02State) mainS2S() func() c02TokenResult {
 	if body.Scope != nil {
 		s.x.Classf("scope-string:%s", c02ScopeClass(c, *body.Scope))
 	}
-	send := func() c02TokenResult { return s.callToken(body, c.DPoP) }
-	res := send()
+	res := s.callToken(body, c.DPoP)
 	for _, d := range defects {
 		s.x.Class("defect:" + d)
 	}
@@ -284,8 +370,9 @@ func (s *c02State) mainS2S() func() c02TokenResult {
 		is := s.record(res, clientID, *r.Scope, []*c02Request{r}, []c02Rendered{rd})
 		is.Tainted = len(defects) > 0
 		is.LooseClaims = c02LooseClaims(defects)
+		s.mainIssued = true
 	}
-	return send
+	return s.s2sReplay(body, r, rd)
 }
 
 // ---------------------------------------------------------------------------------------------------------------------
@@ -362,7 +449,9 @@ func (s *c02State) directPost(state string, rd c02Rendered) (string, error) {
 	return ok.RedirectURI, nil
 }
 
-func (s *c02State) mainCode() func() c02TokenResult {
+func (s *c02State) mainCode() c02Resend { return c02Identical(s.mainCodeFlow()) }
+
+func (s *c02State) mainCodeFlow() func() c02TokenResult {
 	c, x := s.c, s.x
 	legs := s.legs()
 	clientID := c02ClientIDs[0] // the holder node's client_id (must be a URL: it is used for metadata discovery)
@@ -623,7 +712,12 @@ func (s *c02State) mainCode() func() c02TokenResult {
 			pres := s.callToken(good, false)
 			s.judge("prior", pres, defects)
 			if pres.Token != nil {
-				s.record(pres, clientID, s.scope().Name, reqs, rds)
+				// (same model as for the main token below: what a presentation that deviates without expectation
+				// establishes as claims is outside the model)
+				strict, _ := c02Strict(defects)
+				pis := s.record(pres, clientID, authScope, reqs, rds)
+				pis.Tainted = len(strict) > 0
+				pis.LooseClaims = c02LooseClaims(defects)
 			}
 		}
 		defects = append(defects, d.Name)
@@ -715,7 +809,7 @@ func (s *c02State) age(is *c02Issued, arg int) {
 	}
 }
 
-func (s *c02State) history(resend func() c02TokenResult) {
+func (s *c02State) history(resend c02Resend) {
 	x := s.x
 	stateChanged := false
 	for _, op := range s.c.History {
@@ -764,15 +858,28 @@ func (s *c02State) history(resend func() c02TokenResult) {
 				x.Class("history:replay-skipped-after-clock-advance")
 				continue
 			}
-			// the very same request again: whatever happened the first time, it must not yield a token now
-			res := resend()
+			// the very same request again: whatever happened the first time, it must not yield a token now.
+			// The same presentation(s) with other values for what is not bound to them (client_id, DPoP proof, spelling
+			// of the submission): once they have yielded a token, their nonces have been seen - no second token. (After a
+			// refusal nothing is demanded of a request that is not the same request.)
+			issuedBefore := s.mainIssued
+			res, variant := resend(op.Arg)
+			x.Classf("history:replay:%s:%s", s.c.Flow, variant)
+			stateChanged = true
+			if variant != "identical" && !issuedBefore {
+				x.Classf("history:replay-variant-after-refusal:issued=%v", res.Err == nil)
+				continue
+			}
 			x.NonTrivial()
 			if res.Err == nil {
-				x.Violate("replay-accepted:"+s.c.Flow, "the identical token request was honoured a second time")
+				if variant == "identical" {
+					x.Violate("replay-accepted:"+s.c.Flow, "the identical token request was honoured a second time")
+				} else {
+					x.Violate("replay-accepted:"+s.c.Flow+":"+variant, "presentation(s) that had already yielded a token yielded another one when sent again (%s)", variant)
+				}
 				continue
 			}
 			x.Class("history:replay-rejected")
-			stateChanged = true
 		case "second":
 			if s.c.Flow != "s2s" {
 				continue
@@ -816,9 +923,16 @@ func (s *c02State) replayAfter(arg int) {
 		format = c.VPFmt
 	}
 	leg, nonce, clientID := legs[0], s.nonce(), c02ClientIDs[c.ClientID]
+	clientID2 := clientID
+	if (arg/4)%2 == 1 {
+		clientID2 = c02ClientIDs[(c.ClientID+1+arg%(len(c02ClientIDs)-1))%len(c02ClientIDs)] // (client_id is the sender's choice in this grant)
+	}
 	send := func(shift time.Duration) (c02TokenResult, *c02Request, c02Rendered) {
 		r := c02Honest(c, leg.PD, leg.Signer, s.fx.issuer, nonce, "single", &s.seq)
 		r.Scope, r.ClientID = c02Ptr(s.scope().Name), c02Ptr(clientID)
+		if shift != 0 {
+			r.ClientID = c02Ptr(clientID2)
+		}
 		m := r.main()
 		m.Format, m.AudString = format, false
 		m.Created, m.Expires = o-shift, c02Ptr(o+5*time.Second-shift)
@@ -826,6 +940,7 @@ func (s *c02State) replayAfter(arg int) {
 		return s.callToken(s.s2sBody(r, rd), false), r, rd
 	}
 	x.Classf("history:replay_after:created%+ds,after=%ds,%s", int(o.Seconds()), int(d.Seconds()), format)
+	x.Classf("history:replay_after:same-client_id=%v", clientID2 == clientID)
 	res1, r1, rd1 := send(0)
 	if res1.Token == nil {
 		x.Class("history:replay_after:first-presentation-refused") // outside the window this node accepts: nothing to replay
@@ -838,7 +953,7 @@ func (s *c02State) replayAfter(arg int) {
 	x.NonTrivial()
 	if res2.Token != nil {
 		x.Violate("replay-accepted:s2s:after-clock-advance", "a presentation (created %+ds, valid 5 s) was turned into a token, and %ds later (nonce %q) into a second one", int(o.Seconds()), int(d.Seconds()), nonce)
-		s.record(res2, clientID, s.scope().Name, []*c02Request{r2}, []c02Rendered{rd2}).Tainted = true
+		s.record(res2, clientID2, s.scope().Name, []*c02Request{r2}, []c02Rendered{rd2}).Tainted = true
 		return
 	}
 	x.Class("history:replay_after:second-refused:" + c02ErrClass(res2.Err))
@@ -949,7 +1064,7 @@ func c02Run(x *h.Ctx, c c02Case) {
 	if c.DPoP {
 		x.Class("dpop")
 	}
-	var resend func() c02TokenResult
+	var resend c02Resend
 	if c.Flow == "code" {
 		resend = s.mainCode()
 	} else {
